@@ -55,3 +55,18 @@ func TestD13D14Vocabulary(t *testing.T) {
 		t.Errorf("%d identifiers mis-split", bad)
 	}
 }
+
+// D15 (fixed in d8c5ae0): words before a trailing upper-case run that follows a
+// digit were dropped.
+func TestD15TextDropped(t *testing.T) {
+	for in, want := range map[string][]string{
+		"Port2ID":   {"port2", "id"},
+		"OAuth2URL": {"o", "auth2", "url"},
+		"Http2GRPC": {"http2", "grpc"},
+	} {
+		got, err := DecodeGoCamelCase(in)
+		if err != nil || !reflect.DeepEqual([]string(got), want) {
+			t.Errorf("%s: got %v (%v) want %v", in, got, err, want)
+		}
+	}
+}
